@@ -17,6 +17,13 @@ type SolverSpec struct {
 	Pre  string
 }
 
+// ematchSolver: z3 5.1.0 restricted to E-matching (no model-based quantifier instantiation). An
+// `unsat` from it is as good as any other; it never yields a usable model, so `sat`/`unknown` answers
+// from it are ignored.
+var ematchSolver = SolverSpec{Name: "z3-5.1.0-ematch", Cmd: func(t int) []string {
+	return []string{"z3-new", "-in", "-smt2", fmt.Sprintf("-T:%d", t), "smt.auto_config=false", "smt.mbqi=false"}
+}}
+
 var solvers = []SolverSpec{
 	{Name: "z3-5.1.0", Cmd: func(t int) []string { return []string{"z3-new", "-in", "-smt2", fmt.Sprintf("-T:%d", t)} }},
 	{Name: "z3-4.8.12", Cmd: func(t int) []string { return []string{"z3", "-in", "-smt2", fmt.Sprintf("-T:%d", t)} }},
@@ -181,21 +188,41 @@ func discharge(vc *FnVC, k int, timeoutSec int, thorough bool) (SolveResult, map
 	per := map[string]SolveResult{}
 	q := buildQuery(vc, k, true)
 	if !thorough {
-		r := runSolver(context.Background(), solvers[0], q, 3)
-		per[r.Solver] = r
-		if r.Answer == "unsat" || r.Answer == "sat" {
-			return r, per
+		// stage 1: default z3 5.1.0 and its E-matching-only configuration, short budget
+		type rr struct{ r SolveResult }
+		c1 := make(chan SolveResult, 2)
+		go func() { c1 <- runSolver(context.Background(), solvers[0], q, 3) }()
+		go func() { c1 <- runSolver(context.Background(), ematchSolver, q, 3) }()
+		var first *SolveResult
+		for i := 0; i < 2; i++ {
+			r := <-c1
+			if r.Solver == ematchSolver.Name && r.Answer != "unsat" {
+				continue
+			}
+			per[r.Solver] = r
+			if (r.Answer == "unsat" || r.Answer == "sat") && first == nil {
+				rc := r
+				first = &rc
+			}
+		}
+		if first != nil {
+			return *first, per
 		}
 	}
 	ctx, cancel := context.WithCancel(context.Background())
 	defer cancel()
-	ch := make(chan SolveResult, len(solvers))
+	ch := make(chan SolveResult, len(solvers)+1)
 	var wg sync.WaitGroup
-	for _, s := range solvers {
+	all := append([]SolverSpec{ematchSolver}, solvers...)
+	for _, s := range all {
 		wg.Add(1)
 		go func(s SolverSpec) {
 			defer wg.Done()
-			ch <- runSolver(ctx, s, q, timeoutSec)
+			r := runSolver(ctx, s, q, timeoutSec)
+			if s.Name == ematchSolver.Name && r.Answer != "unsat" {
+				r.Answer = "cancelled" // only its refutations count
+			}
+			ch <- r
 		}(s)
 	}
 	go func() { wg.Wait(); close(ch) }()
